@@ -263,6 +263,20 @@ def search(ctx, pf, cases):
         except Exception as e:  # noqa: BLE001
             ctx.violation(f'C08:time-function-raises-{type(e).__name__}', f'{wave} on an integer-typed time array: {str(e)[:100]}',
                           {'wave': wave, 'params': prm})
+        # the waveform has the stated period on the WHOLE time axis (the expansion is a statement about every t, the coefficient integrals
+        # below only look at one period): instants some periods back and forth, taken midway between breakpoints
+        bp = breakpoints(prm)
+        mids = np.array([(a + b) / 2 for a, b in zip(bp[:-1], bp[1:]) if b - a > 1e-3 * T])
+        if len(mids):
+            ctx.count('time-function:periodicity over negative and later periods')
+            ref = fv(mids)
+            for k in (-3, -1, 2, 7):
+                got = fv(mids + k * T)
+                if np.max(np.abs(got - ref)) > 1e-9 * max(abs(prm[1]) + abs(prm[3]), 1e-300):
+                    j = int(np.argmax(np.abs(got - ref)))
+                    ctx.violation('C08:time-function-not-periodic', f'{wave} {prm}: f({mids[j] + k * T!r}) = {got[j]} but f({mids[j]!r}) = {ref[j]} '
+                                  f'({k} periods apart)', {'wave': wave, 'params': prm, 'kind': 'search'})
+                    break
         m = int_period(fv, prm)
         bad = None
         if abs(m - T * h.amplitude(0)) > 1e-9 * max(scale, 1e-300):
